@@ -1,6 +1,7 @@
 # SPDX-License-Identifier: MIT
 from typing import TYPE_CHECKING, NoReturn, Optional, Type, TypeVar
 
+from . import _verif
 from .globals import logger
 
 
@@ -43,6 +44,9 @@ def odxraise(message: Optional[str] = None, error_type: Type[Exception] = OdxErr
 
     Also, convince type checkers that the exception is always raised.
     """
+    if _verif.ENABLED:
+        _verif.emit("odxraise", strict=strict_mode, error=error_type.__name__)
+
     if TYPE_CHECKING or strict_mode:
         if message is None:
             raise error_type()
